@@ -922,6 +922,7 @@ class Engine:
                     return True
             container.items = []
             return False
+        # (membership consumes in specifications as well: a clause that asks twice sees what a caller asking twice sees)
         raise Unsupported('`in` on %s' % pytype(container))
 
     # ---- ite on values
@@ -1561,8 +1562,9 @@ class Engine:
         """Python list of the elements of an iterable with a concrete spine."""
         if isinstance(it, GenResult):
             gen, it = it, it.items
-            if isinstance(it, list):
+            if isinstance(it, list) and not self.pure:
                 gen.items = []        # a generator is exhausted by iterating over it: a second pass sees nothing
+                #                       (specifications look at the yielded values without consuming them)
         if isinstance(it, (list, tuple)):
             return list(it)
         if isinstance(it, (set, frozenset)):
